@@ -11,16 +11,18 @@ PROP = dict(
         level_text='Lean theorems over the index-linked pool model of obj_tree.go, for every pool and every byte string: find_total / '
                    'findRelative_total (Find never panics or loops on a well-formed pool, for ANY expression and live scope, and never '
                    'returns a freed slot), numArgs_correct / argAt_correct (= the abstract child list), closestNamedAncestor_total, '
-                   'no_freed_reachable (links of live objects reach only live objects; child lists agree with parent links), '
+                   'no_freed_reachable (links of live objects reach only live objects), child_lists_agree (k in kids(p) iff live k and parent(k)=p, both directions), '
+                   'forest_parent_is_link, '
                    'free_slots_reused_first, wfCheck_sound (the oracle\'s executable well-formedness check implies WF), '
-                   'ops_preserve_WF_partial + history_partial (newObject only). The model is tied to the Go code by regenerated constants '
+                   'ops_preserve_WF_partial + history_partial (newObject only), find_correct_partial (root and caret clauses). The model is tied to the Go code by regenerated constants '
                    'and a differential run of every ObjectTree operation and query with a full pool dump after each operation; the oracle '
                    'runs on the implementation\'s dump: WF after every in-contract op, the op\'s effect on the abstract forest, freed '
                    'slots reused before growth, and each lookup result = the four-clause ACPI resolver on the abstracted forest.',
         level_note='PARTIAL. Proved for all inputs: totality/no-crash of all lookups on well-formed pools, free-list reuse, no freed '
-                   'object reachable, soundness of the oracle\'s WF checker, WF preservation of newObject. NOT proved, decided by the '
+                   'object reachable, child lists = parent links in both directions, soundness of the oracle\'s WF checker, WF preservation of newObject. NOT proved, decided by the '
                    'oracle on generated histories only: WF preservation and abstract effect of append/appendAfter/detach/free '
-                   '(ops_preserve_WF, history) and find_correct (Find = resolve on encoder-image expressions). Trusted: Lean kernel '
+                   '(ops_preserve_WF, history) and the segment clauses of find_correct (downward descent, scope-then-enclosing-scopes search; '
+                   'the root and caret clauses are proved). Trusted: Lean kernel '
                    '(+ propext, Classical.choice, Quot.sound), the statements in Props/C13.lean and Spec/C13.lean (WF, resolve, encode), '
                    'the harness and replay driver (correspondence is differential testing, not a proof about the Go code).',
 )
